@@ -83,7 +83,7 @@ def build(pos, left, op, right, org, r, single=None):
             texts.append(spell_lit(t[1], r))
         elif t[0] == "equ":
             # mostly E0/E1, sometimes names built from register letters (a symbol is not a register just because it spells like one)
-            nm = r.choice(["E%d" % i] * 2 + [r.choice(["AB", "BD", "ABD", "BA", "XY", "PCX", "DD", "SU", "AD"]) + ("" if i == 0 else "2")])
+            nm = r.choice(["E%d" % i] * 2 + [r.choice(["AB", "BD", "ABD", "BA", "XY", "PCX", "DD", "SU", "AD", "X", "Y", "U", "S", "X", "S"]) + ("" if i == 0 else "2")])
             if nm in equs:
                 nm = "E%d" % i
             equs[nm] = t[1]
